@@ -2,7 +2,7 @@
     block transcoder [X]): there is a character-level decoding function [step] (decode the first character of a
     byte string) which is prefix-stable, needs fewer than [maxSeq] bytes of look-ahead, and [X] does nothing but
     apply it repeatedly: whatever [X] returns is the decoding of some number of whole characters from the
-    front of its input, it makes progress unless the first character is incomplete or does not fit, and it
+    front of its input, it makes progress (when given room) unless the first character is incomplete or does not fit, and it
     throws only the error of the first ill-formed sequence.  Proofs04e.v shows the transcoder models of C05
     (ISO-8859-1, UTF-16 in both byte orders) meet it. *)
 From XV Require Export C04.Model04.
@@ -15,7 +15,7 @@ Record xcontract (step : list N -> dres) (X : xcoder) (maxSeq : nat) : Prop := {
   xc_need : forall s, step s = DNeed -> (length s < maxSeq)%nat;
   xc_ok : forall s m out eaten, X s m = Ok (out, eaten) ->
           (length out <= m)%nat /\ exists k, nsteps step k s = Some (out, eaten);
-  xc_progress : forall s m out, X s m = Ok (out, 0%nat) ->
+  xc_progress : forall s m out, (0 < m)%nat -> X s m = Ok (out, 0%nat) ->
           step s = DNeed \/ exists u n, step s = DOut u n /\ (m < length u)%nat;
   xc_err : forall s m e, X s m = Err e ->
           exists k o n, nsteps step k s = Some (o, n) /\ step (skipn n s) = DErr e
